@@ -5,7 +5,7 @@ import json
 
 CHECKS = {
  "C01": dict(engine="cycle", design="5/C01",
-   text="Seeded search over single coordination cycles: the real Coordinator.Run executes one runOnce against scripted sidecars inside a synctest bubble; every parallel request parks at the simulated transport and is released in PRNG order, map iteration order and math/rand are PRNG-controlled; oracles (no orphan, justified removal, no crash/deadlock) are evaluated on the request/response trace. Evidence, not proof: a clean batch says the sampled reports/orders hold.",
+   text="Seeded search over single coordination cycles: the real Coordinator.Run executes one runOnce against scripted sidecars inside a synctest bubble; every parallel request parks at the simulated transport and is released in PRNG order, map iteration order and math/rand are PRNG-controlled; oracles (no orphan, justified removal, no crash/deadlock) are evaluated on the request/response trace. Every 157th run is a closed-loop world run (real sidecars, faults) whose cycles go through the same oracle. Evidence, not proof: a clean batch says the sampled reports/orders hold.",
    note="Trusted: scripted sidecars produce only reports a real sidecar can produce; the overlay rewriter preserves Go's map-range semantics; testing/synctest; third-party map ranges are not controlled (determinism self-check at another GOMAXPROCS in every run)."),
 }
 _cyc_note="Trusted: scripted sidecars produce only reports a real sidecar can produce; the overlay rewriter preserves Go's map-range semantics; testing/synctest; third-party map ranges are not controlled (determinism self-check at another GOMAXPROCS in every run)."
@@ -26,9 +26,9 @@ CHECKS["C12"]=dict(engine="node", design="5/C12", note=_node_note,
 CHECKS["C13"]=dict(engine="node", design="5/C13", note=_node_note,
   text="Fault injection at the scrape target (connect error, non-200, time-out on the fake clock, body break at every/drawn offset, corrupted gzip stream, administrative stop) observed by a real http.Client talking to a real http.Server that serves the real Proxy over net.Pipe inside a synctest bubble: a failed real scrape must never be a complete 200 for the client; health/last error truthful; counter +1 per attempt; small payloads are swept over every break offset (reported as exhaustive sub-sweeps).")
 CHECKS["C14"]=dict(engine="node", design="5/C14", note=_node_note,
-  text="Model-based seeded search: payloads are built from drawn (metric, label set) samples so total and kept counts are known by construction (kept via Prometheus' own relabel.Process); after every operation of a drawn history the real /status/, /runtimeinfo/ and /samples/ answers are compared with the model (mean of last <=3 successes, last total, sums, head floor).")
+  text="Model-based seeded search: payloads are built from drawn (metric, label set) samples so total and kept counts are known by construction (kept via Prometheus' own relabel.Process); after every operation of a drawn history the real /status/, /runtimeinfo/ and /samples/ answers are compared with the model (mean of last <=3 successes, last total, sums, head floor); every 29th run is a closed-loop world run in which every runtimeinfo answer is checked against the status map of the same shard and cycle.")
 CHECKS["C19"]=dict(engine="cycle", design="5/C19", note=_cyc_note,
-  text="Differential seeded search: the same two-replica scenario (incl. listing errors, scale errors, unready replicas, different placements of the same targets) is run as [A,B], [B] and [A] with per-replica schedules; everything sent to a replica's shards and manager must be identical with and without the other replica; all cycle oracles are additionally evaluated per replica.")
+  text="Differential seeded search: the same two-replica scenario (incl. listing errors, scale errors, unready replicas, different placements of the same targets) is run as [A,B], [B] and [A] with per-replica schedules; everything sent to a replica's shards and manager must be identical with and without the other replica; all cycle oracles are additionally evaluated per replica, also on every cycle of closed-loop two-replica world runs (every 151st run).")
 
 CHECKS["C09"]=dict(engine="node", design="5/C09", note="Trusted: RLIMIT_FSIZE and strace syscall injection behave as documented in this kernel; the update runs without the injector callbacks (only the store is at stake); no power-loss model (kill / partial write / full disk only).",
   text="Crash-point and write-fault injection below the process, at the syscall boundary, against the real TargetsManager on a real directory: for every byte offset N of small stores (complete sub-sweep) and drawn N of large ones the store write is cut by RLIMIT_FSIZE; the write Load performs at start is cut likewise; the same update runs in a separate OS process with a cut and is SIGKILLed by strace on entry to every syscall touching the store files; after each fault a fresh start must succeed and resume the acknowledged or the interrupted assignment, and a second start must agree. Seeded search over assignment pairs (escaping, sizes, states, idle transitions, old-format store).")
@@ -37,7 +37,7 @@ CHECKS["C11"]=dict(engine="node", design="5/C11", note=_node_note+" Both texts a
   text="Seeded search over histories of configuration changes and assignments on a real sidecar (push and file mode): configurations are composed from a catalogue covering every auth kind, SD kind, limits, relabel programs and remote/alerting sections with unique secret tokens, rendered in drawn YAML styles; after every operation the injector's file is loaded with config.Load and compared field-wise with latest config x latest assignment (jobs and order, static entries per assigned target, proxy/http/no basic-auth/no TLS, no job secret in the text, ingestion settings kept, global/rule/alerting/remote sections deeply equal including secret values).")
 
 CHECKS["C16"]=dict(engine="node", design="5/C16", note="Trusted: the edit catalogue's tagging of an edit as semantic or cosmetic (value domains exclude textually different but equal values); a separate OS process stands in for 'different processes'. Input-dominated property (DESIGN 6): the simulated part is the process / sidecar-API dimension; the world engine covers in-sync over cycles.",
-  text="Seeded search over generated configurations x cosmetic re-renderings x single-setting semantic edits: equal text must hash equal in two config managers, in a child OS process and as reported by a real sidecar's runtimeinfo after the real push route; cosmetic variants (formatting, key order, quoting, comments, external labels) must hash equal; every semantic edit (each scalar kind incl. regexes and secrets, SD options, list reorder) must change the hash.")
+  text="Seeded search over generated configurations x cosmetic re-renderings x single-setting semantic edits: equal text must hash equal in two config managers, in a child OS process and as reported by a real sidecar's runtimeinfo after the real push route; cosmetic variants (formatting, key order, quoting, comments, external labels) must hash equal; every semantic edit (each scalar kind incl. regexes and secrets, SD options, list reorder) must change the hash; every 13th run is a closed-loop world run with semantic / cosmetic configuration edits and late file roll-outs in which a shard must be treated as in sync exactly when it runs the coordinator's semantic revision.")
 
 CHECKS["C18"]=dict(engine="k8s", design="5/C18", note="Trusted: client-go's fake clientset as API-server stub (object tracker semantics); reactors inject errors and the pod list order.",
   text="The real kubernetes ReplicasManager/shardManager run against a fake clientset: complete fault-free sweeps of a small (old,new,templates,flag) grid inside runs plus seeded cases with injected API errors (get/update/delete per ordinal), a concurrent writer, drawn pod list orders, pods without IP, extra pods, rolling-update StatefulSets; oracles on objects left in the stub (replicas, exactly the removed ordinals' claims, never a remaining shard's claim under any error, no write when unchanged) and on the Shard list (ordinal order, address via the URL actually called, readiness).")
